@@ -14,7 +14,7 @@ def run(c):
     vf.build_harness()
     d = os.path.join(vf.WORK, "work")
     os.makedirs(d, exist_ok=True)
-    st = vf.tlc("GramPackrat", PACKRAT_CFG, os.path.join(d, "packrat.out"), workers=8, timeout=1200)
+    st = vf.tlc_generate("GramPackrat", PACKRAT_CFG, "packrat", workers=8, timeout=1200)
     c.add_tlc(st, "memo-table machine: computed-once, linear work")
     if st["violated"]:
         c.spec_violation(st, "memo-table design bound")
